@@ -1,11 +1,4 @@
 package zygo
 
 // Read-only accessors for channel pkg (C18), injected by `go build -overlay`.
-
-// VerifFuncName returns the name of a script function value ("" when s is not one).
-func VerifFuncName(s Sexp) string {
-	if f, ok := s.(*SexpFunction); ok {
-		return f.name
-	}
-	return ""
-}
+// (VerifFuncName lives in symtab.go)
